@@ -63,3 +63,18 @@ Theorem C01_eager_vector : forall (V : Type) (st : pstate V) (r : Runner) (sched
   eager_vector st r sched = denote st.
 Proof. intros V st r sched Hw Hd. apply eager_vector_correct; assumption. Qed.
 Print Assumptions C01_eager_vector.
+
+(** REFUTED on one source kind (known finding, DESIGN.md section 6): a concurrent iterator that
+    was advanced before [into_par()] hands out its original indices; the parallel map-only ordered
+    collect writes at [offset + idx] into a bag sized for the remaining elements and the count check
+    fails -- the call panics where the sequential chain returns the mapped remainder.  The witness
+    is replayed on the implementation by K3 (source kinds [pre*]). *)
+From OrxPar Require Import Exec.
+Theorem C01_pre_advanced_refuted :
+  let c pre nt := mkCase true [0; 1; 2; 3; 4; 5]%Z [DNumThreads nt; DChunkSize 2; DMap (Affine 1 10)] TCollectVec
+                         16%N [] 50 None false false pre in
+  o_result (exec (c 2 3%N)) = RPanic /\                      (* advanced by 2, three threads *)
+  o_result (exec (c 2 1%N)) = RList [12; 13; 14; 15]%Z /\    (* the same, sequentially *)
+  o_result (exec (c 0 3%N)) = RList [10; 11; 12; 13; 14; 15]%Z.  (* not advanced *)
+Proof. vm_compute. repeat split. Qed.
+Print Assumptions C01_pre_advanced_refuted.
